@@ -54,6 +54,11 @@ def compiled_corpus(tier):
     dgs = [dcorp.DG("g%d" % i, t, {"emit_rule_reference": True}) for i, t in enumerate(texts + cand)]
     ok = dcorp.prepare(dgs)
     fixed = [g for g in ok if int(g.name[1:]) < len(texts)]
+    # fixed grammars outside the certified class (the repository's syntax.pest: `Choice = { .. | &"c" ~ Choice ~ .. }` recurses without
+    # consuming and overflows the stack, in pest as well): kept, but run only on the inputs on which the model ends within its fuel
+    wf_names = {g.name for g in wf_only(fixed)}
+    for g in fixed:
+        g.wf = g.name in wf_names
     # random grammars: only those the verified certificate checker wf_cert accepts (Model/Wf.v, with the inferred certificate):
     # pest's validator lets through repetitions over stack built-ins that can match the empty string for ever (POP_ALL*,
     # PEEK[..]* on an empty stack); they are outside the class "well-founded" of C11 and hang pest itself
@@ -85,10 +90,30 @@ def wf_only(gs):
 _run_cache = {}
 
 
+def safe_inputs(g):
+    """inputs_for(g); for a fixed grammar outside the well-founded class only those on which every entry point of every rule ends in
+    the model (no FUEL): the others may recurse for ever in the real parser (stack overflow), which C11 excludes"""
+    ins = dcorp.inputs_for(g)
+    if getattr(g, "wf", True):
+        return ins
+    cached = getattr(g, "_safe_inputs", None)
+    if cached is not None:
+        return cached
+    had = g.env.preds
+    if not had:
+        g.env.preds = {n: [] for n in getattr(g.env, "pred_names", [])}
+    res = model_only([(g.env, ins)])
+    g.env.preds = had
+    bad = {hx for (sid, hx), f in res.items() if any("FUEL" in str(v) for v in f.values())}
+    g._safe_inputs = [b for b in ins if (b.hex() if b else "-") not in bad]
+    g.dropped_inputs = len(ins) - len(g._safe_inputs)
+    return g._safe_inputs
+
+
 def corpus_run(tier):
     if tier not in _run_cache:
         dgs = compiled_corpus(tier)
-        run = dcorp.run_corpus("core_%s" % tier, dgs, dcorp.inputs_for, MODEL_FLAGS)
+        run = dcorp.run_corpus("core_%s" % tier, dgs, safe_inputs, MODEL_FLAGS)
         _run_cache[tier] = (dgs, run)
     return _run_cache[tier]
 
